@@ -101,6 +101,8 @@ class BuiltinMixin:
             args, kwargs = self.eval_args(node, st, fr)
             if "**" in kwargs:
                 args = args + [kwargs.pop("**")]
+            # f(x, *rest): the unpacked sequence is passed to the contract as one argument
+            args = [(a_.py[1] if a_.pt == "star" else a_) for a_ in args]
             return self.call_named("param:" + fn.id, [callee] + args, kwargs, st, fr, node)
         if callee.pt == "pyfunc":
             kind = callee.py[0]
@@ -481,6 +483,14 @@ class BuiltinMixin:
             return self.tl_get(obj, name, st, fr, self.box(self.ev(node.args[2], st, fr)))
         # getattr(self, '_hash', None): slot may be unset -> default; modelled as "None when unset" = plain read
         return self.get_attr(obj, name, st, fr, node)
+
+    def bi_setattr(self, node, st, fr):
+        if not isinstance(node.args[1], ast.Constant) or not isinstance(node.args[1].value, str):
+            raise Untranslatable("setattr with a computed name")
+        target = ast.Attribute(value=node.args[0], attr=node.args[1].value, ctx=ast.Store())
+        ast.copy_location(target, node)
+        self.assign_place(target, self.ev(node.args[2], st, fr), st, fr)
+        return SV(self.voc.NONE, "none")
 
     def bi_hasattr(self, node, st, fr):
         obj = self.ev(node.args[0], st, fr)
